@@ -2,7 +2,7 @@
    pending pin block compiles as it stands (written by driver/r2c2_mkpintest.py).  The coordinator appends the blocks to
    Props/CXX.v at merge. *)
 From Coq Require Import List Arith ZArith.
-From OV Require Import Base.Panic Base.Arith Model.Roots.
+From OV Require Import Base.Panic Base.Arith Model.Vector Model.Matrix Model.Sparse Model.Iter Model.Newton Model.Roots.
 Import ListNotations.
 
 (* ======================================================================== C03_r2c2.v.txt *)
@@ -54,6 +54,18 @@ Theorem model_is_source_C08_Iter : forall F : SArith, @SrcEqIter.model_is_source
 Proof. intros F. exact SrcEqIter.model_is_source_Iter_lemma. Qed.
 Check model_is_source_C08_Iter : forall F : SArith, @SrcEqIter.model_is_source_Iter F.
 Print Assumptions model_is_source_C08_Iter.
+(* non-vacuity: the regenerated solvers run (float instance, the 2x2 SPD system [[4,1],[1,3]] x = [1,2]) and converge in
+   two iterations to x = [1/11, 7/11] up to rounding -- the erasure equations above are not between two panics *)
+From Coq Require Import Floats.
+From OV Require Import Inst.FloatInst.
+Example model_is_source_C08_Iter_nonvacuous :
+  let M : sparse AF := @mkS AF 2 2 4 [4;1;1;3]%float [0;1;0;1] [0;2;4] in
+  match SrcIter.s_solve_cg (F:=SAF) M ([1;2]%float : list (T AF)) ([0;0]%float : list (T AF)) 10 (0x1p-30%float : T AF),
+        SrcIter.s_solve_qmr (F:=SAF) M ([1;2]%float : list (T AF)) ([0;0]%float : list (T AF)) 10 (0x1p-30%float : T AF) with
+  | Ok (_, IOk 2), Ok (_, IOk 2) => True
+  | _, _ => False
+  end.
+Proof. vm_compute. exact I. Qed.
 
 (* ======================================================================== C09_r2c2.v.txt *)
 (* ---- tie of the model to the source of this run (package r2c2): gen/SrcIter.v is regenerated from src/sparse.rs by
@@ -65,6 +77,18 @@ Theorem model_is_source_C09_Iter : forall F : SArith, @SrcEqIter.model_is_source
 Proof. intros F. exact SrcEqIter.model_is_source_Iter_lemma. Qed.
 Check model_is_source_C09_Iter : forall F : SArith, @SrcEqIter.model_is_source_Iter F.
 Print Assumptions model_is_source_C09_Iter.
+(* non-vacuity: the regenerated solvers run (float instance, the 2x2 SPD system [[4,1],[1,3]] x = [1,2]) and converge in
+   two iterations to x = [1/11, 7/11] up to rounding -- the erasure equations above are not between two panics *)
+From Coq Require Import Floats.
+From OV Require Import Inst.FloatInst.
+Example model_is_source_C09_Iter_nonvacuous :
+  let M : sparse AF := @mkS AF 2 2 4 [4;1;1;3]%float [0;1;0;1] [0;2;4] in
+  match SrcIter.s_solve_cg (F:=SAF) M ([1;2]%float : list (T AF)) ([0;0]%float : list (T AF)) 10 (0x1p-30%float : T AF),
+        SrcIter.s_solve_qmr (F:=SAF) M ([1;2]%float : list (T AF)) ([0;0]%float : list (T AF)) 10 (0x1p-30%float : T AF) with
+  | Ok (_, IOk 2), Ok (_, IOk 2) => True
+  | _, _ => False
+  end.
+Proof. vm_compute. exact I. Qed.
 
 (* ======================================================================== C10_r2c2.v.txt *)
 (* ---- tie of the model to the source of this run (package r2c2): gen/SrcRoots.v is regenerated from src/polynomial/mod.rs
@@ -154,11 +178,18 @@ Print Assumptions model_is_source_C17_WrapNewton.
 (* ---- the callee Vec64::norm_inf of the vector solvers: the regenerated function (gen/SrcVec64.v, f64::abs instantiated by
    the arithmetic's abs) is the loop formulation Newton.norm_inf (NReal _) the Newton model calls *)
 Theorem model_is_source_C17_norm_inf : forall (F : SArith) (v : list (T (SA F))),
-  OV.gen.SrcVec64.s_norm_inf abs v = OV.Model.Newton.norm_inf (OV.Model.Newton.NReal (SA F)) v.
+  OV.gen.SrcVec64.s_norm_inf (@OV.Base.Arith.abs (SA F)) v = OV.Model.Newton.norm_inf (OV.Model.Newton.NReal (SA F)) v.
 Proof. intros F v. exact (SrcEqNewton.callee_norm_inf v). Qed.
 Check model_is_source_C17_norm_inf : forall (F : SArith) (v : list (T (SA F))),
-  OV.gen.SrcVec64.s_norm_inf abs v = OV.Model.Newton.norm_inf (OV.Model.Newton.NReal (SA F)) v.
+  OV.gen.SrcVec64.s_norm_inf (@OV.Base.Arith.abs (SA F)) v = OV.Model.Newton.norm_inf (OV.Model.Newton.NReal (SA F)) v.
 Print Assumptions model_is_source_C17_norm_inf.
+(* non-vacuity: the regenerated Newton<f64>::solve runs (float instance, f(x) = x*x - 2 from x0 = 1) and returns Ok(sqrt 2) *)
+From Coq Require Import Floats.
+From OV Require Import Inst.FloatInst.
+Example model_is_source_C17_Newton_nonvacuous :
+  SrcNewton.s_newton_solve_f64 (A:=AF) (@mkCfg (T AF) (T AF) 0x1p-30%float 0x1p-27%float 20 1%float) (fun x : T AF => Ok (x*x - 2)%float)
+  = Ok (NOk 0x1.6a09e667f3bcdp+0%float).
+Proof. vm_compute. reflexivity. Qed.
 
 (* ======================================================================== C18_r2c2.v.txt *)
 (* ---- tie of the model to the source of this run (package r2c2): gen/SrcNewton.v / gen/SrcNewtonC.v are regenerated from
